@@ -162,8 +162,12 @@ def check_energy(case, ctx):
     ctx.label('model:' + model, 'cone' if cone else 'cylinder')
     from compmech.conecyl import modelDB
 
+    # the elastic edge restraints are switched off here: with the default 1e8 penalties the subtraction k0 - k0edges would lose
+    # ten digits; their own matrix is the subject of the sub-check `edges`
+    zero_edges = {k: 0. for k in ('kuBot', 'kuTop', 'kvBot', 'kvTop', 'kwBot', 'kwTop', 'kphixBot', 'kphixTop', 'kphitBot', 'kphitTop')}
+
     def k0_minus_edges(s):
-        cc = make_cc(dict(case, s=s))
+        cc = make_cc(dict(case, s=s, **zero_edges))
         with package(name):
             cc._calc_linear_matrices()
             k0edges = modelDB.get_linear_matrices(cc)[4]
@@ -179,6 +183,9 @@ def check_energy(case, ctx):
     free = np.arange(3, n)
     Hf = H[np.ix_(free, free)]
     sc = np.max(np.abs(Hf))
+    if not (sc > 0):
+        ctx.exclude('no strain energy on the free amplitudes')
+        return
     if cone:
         K2, _ = k0_minus_edges(2 * s0)
         K4, _ = k0_minus_edges(4 * s0)
